@@ -376,6 +376,30 @@ impl Ratio {
         ensures r == (self.numer.v() != 0),
     //@body impl/Ring@Ratio/is_unit
 
+    /// `*self *= r` with r by value: #[auto_ops] derives it from the by-reference impl proved above (ASSUMED to forward to it)
+    #[verifier::external_body] pub fn mul_assign_val_(&mut self, rhs: Ratio)
+        requires old(self).wf(), rhs.wf(),
+        ensures final(self).wf(), final(self).same(old(self).numer.v() * rhs.numer.v(), old(self).denom.v() * rhs.denom.v()) { unimplemented!() }
+    /// a/b divided by c/d (c != 0): the value a d / (b c) in lowest terms with a positive denominator; division by zero does not return
+    pub fn div_assign(&mut self, rhs: &Ratio)
+        requires old(self).wf(), rhs.wf(),
+//@if B
+            rhs.numer.v() != 0,
+//@endif
+        ensures rhs.numer.v() != 0, final(self).wf(),
+            final(self).same(old(self).numer.v() * rhs.denom.v(), old(self).denom.v() * rhs.numer.v()),
+    //@body impl/DivAssign@Ratio/div_assign ring=1 q=self,rhs qname=rq
+    //@+ sig
+    //@| fn div_assign(&mut self, rhs: &Ratio<T>)
+    //@+ post
+    //@| let (a, b, c, d) = (old(self).numer.v(), old(self).denom.v(), rhs.numer.v(), rhs.denom.v());
+    //@| let w = choose|w: Ratio| #[trigger] w.wf() && w.same(d, c) && self.same(a * w.numer.v(), b * w.denom.v());
+    //@| let (wn, wd, fnn, fd) = (w.numer.v(), w.denom.v(), self.numer.v(), self.denom.v());
+    //@| assert((a * wn) * (b * c) == (a * b) * (wn * c)) by (nonlinear_arith);
+    //@| assert((a * d) * (b * wd) == (a * b) * (d * wd)) by (nonlinear_arith);
+    //@| assert(b * wd != 0) by (nonlinear_arith) requires b > 0, wd > 0;
+    //@| lemma_same_trans(fnn, fd, a * wn, b * wd, a * d, b * c);
+
 }
 
 /// nested helper of Ord::cmp
@@ -447,5 +471,9 @@ pub proof fn lemma_cmp_floor(n1: int, d1: int, n2: int, d2: int, q1: int, r1: in
 }
 
 
+pub fn rqmul_assign_(a: &mut Ratio, b: Ratio)
+    requires old(a).wf(), b.wf(),
+    ensures final(a).wf(), final(a).same(old(a).numer.v() * b.numer.v(), old(a).denom.v() * b.denom.v())
+{ a.mul_assign_val_(b) }
 } // verus!
 fn main() {}
